@@ -2,10 +2,14 @@
    Proved: MarshalJSON succeeds exactly when Pack does and leaves the same state; every JSON object lists its keys
    in the StringsByInt order of the key set whatever the map order (json_object is the model of OrderedMap); the
    keys of the message object are the present field numbers (m_json builds them from m_present); integers are
-   sorted ascending by sort_tags (C09_sort_sorted). Syntactic validity of the escaped text and the decode round trip
-   are checked by the oracle (json.Valid, key order, UnmarshalJSON into a fresh message, identical re-pack) and by
-   byte-for-byte correspondence of the JSON text; their theorems are not yet proved (partial). *)
-From Iso Require Import Model.Base Model.Sexp Model.Spec Model.Field Model.Message Model.Json Model.MessageOps Proofs.BaseLemmas Proofs.StateProofs.
+   sorted ascending by sort_tags (C09_sort_sorted); the text is syntactically valid JSON (RFC 8259 grammar as the
+   inductive predicate jvalue of Proofs/JsonProofs.v: strings with the two-character escapes for quote, backslash, b, f, n, r, t and the uXXXX escapes only,
+   and no raw control character, quote or backslash; decimal integers; objects of key : value members; null), for every
+   string value whatever its bytes (invalid UTF-8 becomes the replacement character escape), every nesting of composites whose subfield tags are
+   plain text, and every message (C12_string_valid, C12_field_valid, C12_message_valid). The decode round trip is checked
+   by the oracle (json.Valid, key order, UnmarshalJSON into a fresh message, identical re-pack) and by byte-for-byte
+   correspondence of the JSON text (partial). *)
+From Iso Require Import Model.Base Model.Sexp Model.Spec Model.Field Model.Message Model.Json Model.MessageOps Proofs.BaseLemmas Proofs.StateProofs Proofs.JsonProofs.
 
 Theorem C12_total : forall S m, is_ok (snd (m_json S m)) = is_ok (snd (m_pack S m)) /\ fst (m_json S m) = fst (m_pack S m).
 Proof. exact m_json_total. Qed.
@@ -24,3 +28,17 @@ Proof. vm_compute; reflexivity. Qed.
 Example C12_ex_order : json_object [([x31; x30], [x31]); ([x39], [x32]); ([x32], [x33])] =
   [x7b; x22; x32; x22; x3a; x33; x2c; x22; x39; x22; x3a; x32; x2c; x22; x31; x30; x22; x3a; x31; x7d].
 Proof. vm_compute; reflexivity. Qed.
+
+Theorem C12_string_valid : forall v, jvalue (json_string v).
+Proof. exact json_string_valid. Qed.
+Print Assumptions C12_string_valid.
+
+Theorem C12_field_valid : forall st, keys_ok st -> jvalue (json_field st).
+Proof. exact json_field_valid. Qed.
+Print Assumptions C12_field_valid.
+
+Theorem C12_message_valid : forall S m m' doc, (forall id, In id (m_present (fst (m_pack S m))) -> 0 <= id <= max_int) ->
+  keys_ok (m_mti m) -> (forall id st, zlookup id (m_fields m) = Some st -> keys_ok st) ->
+  m_json S m = (m', Ok doc) -> jvalue doc.
+Proof. exact m_json_valid. Qed.
+Print Assumptions C12_message_valid.
